@@ -3,6 +3,10 @@
 HOOK_COMMITS = []
 
 CHECKS = [
+  {"property_id": "C12", "level": "exploration",
+   "technique": "bounded-exhaustive enumeration of exportable ASTs through encode/decode/re-encode; all ordered pairs of a type-node universe for the eq/hash law",
+   "text": "Every exportable AST (programs via PrepareForExport, all generated stubs via SourceToExportableAst, bundled builtins/typing/collections/enum/protocols) is serialised, decoded, compared structurally with the canonically ordered original, re-encoded (bytes must match) and decoded/encoded once more; every ordered pair of a universe of type nodes (all type forms as NamedType and ClassType trees, unions/intersections/tuples in every member order, literals) is checked for a == b => equal hashes and set de-duplication.",
+   "note": "Bounded by vk/stubspace.py and the program alphabets. Expected value applies the documented module-alias normalisation (written independently). Bundled ASTs are serialised in a forked child because SerializeAst clears class pointers in place and builtins are cached process-wide."},
   {"property_id": "C01", "level": "exploration",
    "technique": "bounded-exhaustive program enumeration; differential against CPython execution under all branch-condition answers",
    "text": "Every loop-free program of the PS-core alphabet up to the tier's sequence length (quick: all single statements + all 2-sequences over the core templates; thorough: all 2-sequences over all templates) is analysed by the real pipeline (generate_pyi, real C++ solver) and executed under CPython for all four answers of two conditions that are opaque to pytype; every module-level name, instance attribute and program-function call result must be admitted by the stub under a PEP-484 membership oracle.",
